@@ -131,7 +131,7 @@ def main():
     def fails_with(sig):
         def f(cand):
             try:
-                mm, ii = runner.run([("s", cand)])
+                mm, ii = runner.run([("s", cand)], timeout=20)
             except Exception:
                 return False
             try:
@@ -196,7 +196,7 @@ def main():
 
                 def still_div(cand):
                     try:
-                        mm, ii = runner.run([("s", cand)])
+                        mm, ii = runner.run([("s", cand)], timeout=20)
                     except Exception:
                         return False
                     return vlib.first_diff(mm.get("s", []), ii.get("s", [])) is not None
